@@ -196,7 +196,7 @@ def mat_jets(m):
 TOL = {"double": {"value": 1e-9, "jac": 1e-7}, "float": {"value": 1e-4, "jac": 1e-3}}      # as R-JET
 
 
-def analyse(rep, prop, v, what, order_exp=5, order_jac=4, world=None, scalar="double", switches_out=None):
+def analyse(rep, prop, v, what, order_exp=5, order_jac=4, world=None, scalar="double", switches_out=None, also=()):
     """what: subset of {'exp','log','expjac','logjac','adjexp','rjac','ljac','rjacinv','ljacinv'}"""
     what = set(what)
     tcls, gcls, dof, rep_n = TAN[v]
@@ -242,6 +242,7 @@ def analyse(rep, prop, v, what, order_exp=5, order_jac=4, world=None, scalar="do
                     except ValueError as ex:
                         raise C.AnalysisBroken("R-SERIES: %s(%d,%d) of %s: %s (raise jetnum.ORDER)" % (name, r, c, v, ex))
                     bad = None
+                    bad_scalar = scalar
                     if any(k < 0 for k in g):
                         bad = "a pole of order %d at the identity" % -min(g)
                     else:
@@ -258,25 +259,29 @@ def analyse(rep, prop, v, what, order_exp=5, order_jac=4, world=None, scalar="do
                                     dp = sp.Poly(d, *cs)
                                 except sp.PolynomialError:
                                     raise C.AnalysisBroken("R-SERIES.small: non-polynomial residual in %s(%d,%d) of %s" % (name, r, c, v))
-                                tol_ = TOL[scalar][clause_of(name)]
-                                low = []
-                                for mon, coef in dp.terms():
-                                    a_ = sum(mon[i] for i in angular)
-                                    if not coef.is_number:
-                                        raise C.AnalysisBroken("R-SERIES.small: symbolic coefficient in the residual of %s(%d,%d) of %s" % (name, r, c, v))
-                                    if abs(float(coef)) * world ** a_ > tol_:
-                                        low.append((mon, coef, a_))
-                                if not low:
-                                    continue
-                                mon, coef, a_ = low[0]
-                                bad = "order %d: the code on the small-angle side omits / alters the term %s (angular degree %d: error up to %.1e relative to the non-angular components just below the switch-over |theta| = %.3g, tolerance %.0e)" % (
-                                    kk, str(coef * sp.prod([x ** e for x, e in zip(cs, mon)]))[:80], a_, abs(float(coef)) * world ** a_, world, tol_)
-                                break
+                                for sc_, th_ in ((scalar, world),) + tuple(also):
+                                    tol_ = TOL[sc_][clause_of(name)]
+                                    low = []
+                                    for mon, coef in dp.terms():
+                                        a_ = sum(mon[i] for i in angular)
+                                        if not coef.is_number:
+                                            raise C.AnalysisBroken("R-SERIES.small: symbolic coefficient in the residual of %s(%d,%d) of %s" % (name, r, c, v))
+                                        if abs(float(coef)) * th_ ** a_ > tol_:
+                                            low.append((mon, coef, a_))
+                                    if low:
+                                        mon, coef, a_ = low[0]
+                                        bad = "order %d: the code on the small-angle side omits / alters the term %s (angular degree %d: error up to %.1e relative to the non-angular components just below the switch-over |theta| = %.3g in %s, tolerance %.0e)" % (
+                                            kk, str(coef * sp.prod([x ** e for x, e in zip(cs, mon)]))[:80], a_, abs(float(coef)) * th_ ** a_, th_, sc_, tol_)
+                                        bad_scalar = sc_
+                                        break
+                                if bad:
+                                    break
+                                continue
                             if d != 0:
                                 bad = "order %d: closed form %s, series %s" % (kk, str(g.get(kk, 0))[:70], str(wk)[:70])
                                 break
                     rule = "R-SERIES." + name if world is None else "R-SERIES.small." + name
-                    tag = "" if world is None else ":%s" % scalar
+                    tag = "" if world is None else ":%s" % (bad_scalar if bad else scalar)
                     rep.obligation(bad is None, lambda r=r, c=c, bad=bad: F_(
                         rule, "%s(%d,%d)%s" % (name, r, c, tag),
                         "the Taylor jet (through order %d in the tangent) of %s at (%d,%d) differs from the defining series: %s" % (order, name, r, c, bad), f))
@@ -394,14 +399,24 @@ def _worker(job):
         sw = set()
         n = analyse(col, prop, v, set(what), oe, oj, None, "double", sw)
         if small:
-            for scalar in ("double", "float"):
-                for th in sorted({theta_s(thr, k, scalar) for thr, k, _ in sw}):
-                    sw2 = set()
-                    n += analyse(col, prop, v, set(what), oe, oj, th, scalar, sw2)
-                    worlds.append((scalar, th))
-                    new = {(t_, k_) for t_, k_, _ in sw2} - {(t_, k_) for t_, k_, _ in sw}
-                    if new:
-                        raise C.AnalysisBroken("R-SERIES.small: %s of %s reaches a precision switch only on a small-angle side (%s): extend the world enumeration" % (what, v, sorted(new)))
+            keys = sorted({(thr, k) for thr, k, _ in sw}, key=lambda tk: theta_s(tk[0], tk[1], "double"))
+            order_f = sorted(keys, key=lambda tk: theta_s(tk[0], tk[1], "float"))
+            th_d = sorted({theta_s(t_, k_, "double") for t_, k_ in keys})
+            th_f = sorted({theta_s(t_, k_, "float") for t_, k_ in keys})
+            same_partition = len(th_d) == len(th_f) and all(
+                {tk for tk in keys if theta_s(tk[0], tk[1], "double") >= a * (1 - 1e-9)} == {tk for tk in keys if theta_s(tk[0], tk[1], "float") >= b * (1 - 1e-9)}
+                for a, b in zip(th_d, th_f))
+            runs = [("double", a, (("float", b),)) for a, b in zip(th_d, th_f)] if same_partition else \
+                   [("double", a, ()) for a in th_d] + [("float", b, ()) for b in th_f]
+            for scalar, th, also in runs:
+                sw2 = set()
+                n += analyse(col, prop, v, set(what), oe, oj, th, scalar, sw2, also)
+                worlds.append((scalar, th))
+                for sc_, th_ in also:
+                    worlds.append((sc_, th_))
+                new = {(t_, k_) for t_, k_, _ in sw2} - {(t_, k_) for t_, k_, _ in sw}
+                if new:
+                    raise C.AnalysisBroken("R-SERIES.small: %s of %s reaches a precision switch only on a small-angle side (%s): extend the world enumeration" % (what, v, sorted(new)))
     except C.AnalysisBroken as ex:
         return v, what, 0, col.n_ok, col.findings, str(ex), worlds
     return v, what, n, col.n_ok, col.findings, None, worlds
